@@ -8,6 +8,7 @@ import (
 	"io"
 	"net/http"
 	"reflect"
+	"regexp"
 	"strings"
 
 	"github.com/getkin/kin-openapi/openapi3"
@@ -81,7 +82,11 @@ func jsonProp(p *Pkg, _ *Pkg, payload json.RawMessage, res *Result) {
 		return
 	}
 	bad := func(kind, clause, in, observed, expected string) {
-		res.Violate(Violation{Attrs: map[string]string{"kind": kind, "clause": clause}, Input: in, Observed: observed, Expected: expected, Detail: map[string]any{"state": pl.State}})
+		attrs := map[string]string{"kind": kind, "clause": clause}
+		if at := conformAt(kind, observed); at != "" {
+			attrs["at"] = at
+		}
+		res.Violate(Violation{Attrs: attrs, Input: in, Observed: observed, Expected: expected, Detail: map[string]any{"state": pl.State}})
 	}
 	switch pl.Mode {
 	case "C06", "C07":
@@ -391,7 +396,11 @@ func c07Wire(p *Pkg, pl *JSONPayload, t reflect.Type, vals []reflect.Value, res 
 		return
 	}
 	bad := func(kind, clause, in, observed string) {
-		res.Violate(Violation{Attrs: map[string]string{"kind": kind, "clause": clause}, Input: in, Observed: observed, Expected: "body valid for the source schema", Detail: map[string]any{"state": pl.State}})
+		attrs := map[string]string{"kind": kind, "clause": clause}
+		if at := conformAt(kind, observed); at != "" {
+			attrs["at"] = at
+		}
+		res.Violate(Violation{Attrs: attrs, Input: in, Observed: observed, Expected: "body valid for the source schema", Detail: map[string]any{"state": pl.State}})
 	}
 	if rop := api.Op("GET", pl.RespOp); rop != nil && pl.RespOp != "" {
 		// the constructor taking exactly one argument of the schema type
@@ -496,3 +505,18 @@ func c07Wire(p *Pkg, pl *JSONPayload, t reflect.Type, vals []reflect.Value, res 
 type roundTripFunc func(*http.Request) (*http.Response, error)
 
 func (f roundTripFunc) Do(r *http.Request) (*http.Response, error) { return f(r) }
+
+var reIndex = regexp.MustCompile(`\[\d+\]`)
+
+// conformAt: where in the output a conformance problem sits - its JSON path with array indexes
+// generalised ("$.f[]" for any element of f, "$.f" for f itself).
+func conformAt(kind, observed string) string {
+	if !strings.HasPrefix(kind, "nonconforming") {
+		return ""
+	}
+	i := strings.Index(observed, ": ")
+	if i <= 0 || !strings.HasPrefix(observed, "$") {
+		return ""
+	}
+	return reIndex.ReplaceAllString(observed[:i], "[]")
+}
